@@ -582,6 +582,13 @@ func c03Entry(entry string, data string, mode string) (class string, detail sx.S
 		if err != nil {
 			return "error", "-"
 		}
+		// what was read is printed in both forms and every indent mode (the text is not compared here)
+		for _, ind := range []int{-1, 0, 2} {
+			var b bytes.Buffer
+			_ = ggql.WriteJSONValue(&b, v, ind)
+			b.Reset()
+			_ = ggql.WriteSDLValue(&b, v, ind)
+		}
 		return "ok", pvOf(v)
 	case "sdl":
 		root := ggql.NewRoot(nil)
@@ -718,7 +725,8 @@ func c03ChildMain(entry string, mode string) {
 }
 
 var c03Seeds = map[string][]string{
-	"value": {`{a: 1, b: [true, null, "x\n", E, $v], c: {d: 1.5e3}}`, `[1 2 3]`, `"""block "" string"""`, `-12`, `"é"`, `{"k": [[], {}]}`},
+	"value": {`{a: 1, b: [true, null, "x\n", E, $v], c: {d: 1.5e3}}`, `[1 2 3]`, `"""block "" string"""`, `-12`, `"é"`, `{"k": [[], {}]}`,
+		"{\"😀\": \"𐍈 é 日\", k: [\"\\u00e9\", \"\"\"😀\"\"\"]}"},
 	"sdl": {"type Query { a(x: Int = 3, y: [String!]! = [\"q\"]): Thing @deprecated(reason: \"no\") }\n\"desc\"\ntype Thing implements I { name: String }\ninterface I { name: String }\nunion U = Thing\nenum E { A B }\ninput In { p: Int! = 1 }\nscalar Date\ndirective @d(a: Int) on FIELD | OBJECT\nextend type Thing { more: Thing }\nschema { query: Query }\n",
 		"\"\"\"\nblock\n\"\"\"\ntype Query { a: Int }",
 		// extensions of types the root already holds (the second load of the sdl entry), several per type,
@@ -727,7 +735,9 @@ var c03Seeds = map[string][]string{
 		"extend enum E { C }\nextend enum E { D }\nextend input In { q: Int }\nextend input In { r: Int }\nextend interface I { z: Int }\nextend enum E { C }\n",
 		"extend type Thing { x: Int }\nextend type Thing { y: Nope }\nextend union U = Query\nextend union U = Query\n",
 		"type Query { a: Int }\nextend type Query { b: Int }\nextend type Query { c: Int }\nextend type Query { b: Int }\n",
-		"input Node { n: Int = 1 next: Node = {} list: [Node] = [{}] }\ntype Query { f(x: Node = {}): Int }\n"},
+		"input Node { n: Int = 1 next: Node = {} list: [Node] = [{}] }\ntype Query { f(x: Node = {}): Int }\n",
+		// characters outside the basic plane in everything that is printed back
+		"\"😀 𐍈\"\ntype Query { \"\"\"😀\"\"\" a(x: String = \"😀\", y: [String] = [\"𐍈\"]): Int @deprecated(reason: \"😀\") }\nenum E { \"𐍈\" A }\n"},
 	"exe": {`query Q($v1: Int = 2, $v2: [String]) { f1 { f3 f1 { ...F } } f2(a1: $v1, a2: ["s"], a3: {a1: 1, a2: [{a1: 2}]}) ... on Query { f1 { f3 } } }
 fragment F on T20 { f3 f1 { f3 } }`, `{ f1 { f3 f4 { f3 } } }`, `mutation M { f1 { f3 } }`, `{ __schema { types { name } } __type(name: "T20") { fields { name } } }`,
 		`query($a:){f1{f3}}`, `{f1{...F}} fragment F on T20 {f3 ...F}`, `{f1{...F}} fragment F on T20 {f3 f1 { ...G }} fragment G on T20 { f1 { ...F } }`,
@@ -742,13 +752,14 @@ fragment F on T20 { f3 f1 { f3 } }`, `{ f1 { f3 f4 { f3 } } }`, `mutation M { f1
 		`{ f5 { ...S } f6 { ...S } } fragment S on T28 { f7(a2: 2) }`, `{ f5 { f7(a1: 1) } f6 { f7(a2: 2) ... on T21 { f7(a1: 3) } } }`,
 		// fragments that reach themselves only through an inline fragment, a field, a list, one another
 		`{ ...A } fragment A on Query { f1 { f3 } ... on Query { ...A } }`, `{f1{...F}} fragment F on T20 { f3 ... { ...F } }`,
+		"{ f2(a1: 1, a2: [\"😀\", \"𐍈\"]) f1 { f3 } }", "query($v: [String] = [\"😀\"]) { f2(a1: 1, a2: $v) }",
 		`{f1{...F}} fragment F on T20 { f4 { ... on T20 { f1 { ...F } } } }`, `{f1{...F}} fragment F on T20 { ... on T20 { ...G } } fragment G on T20 { ... { ...F } }`},
 }
 
 // tokens the token-level mutator inserts
 var c03Vocab = []string{"[", "]", "[]", "{", "}", "{}", "(", ")", "()", "!", ":", "=", "|", "&", "@", "@skip(if: true)", "@d", "...", "on", "$v1", "$",
 	"type", "input", "enum", "union", "interface", "scalar", "schema", "extend", "directive", "implements", "fragment", "query", "mutation", "subscription",
-	"Int", "T20", "Query", "null", "true", "1", "-", "1e", "\"", "\"\"\"", "#", ",", "\n"}
+	"Int", "T20", "Query", "null", "true", "1", "-", "1e", "\"", "\"\"\"", "#", ",", "\n", "\"😀\"", "\"\"\"𐍈\"\"\""}
 
 var c03TokRe = regexp.MustCompile("[A-Za-z_][A-Za-z0-9_]*|\\$[A-Za-z0-9_]*|-?[0-9][0-9.eE+-]*|\"\"\"(?s:.*?)\"\"\"|\"(?:[^\"\\\\\n]|\\\\.)*\"|\\.\\.\\.|\\s+|.")
 
